@@ -23,6 +23,7 @@ import ast
 import os
 import re
 
+from harness import c13victims
 from harness import common
 from harness import gen
 from harness import genfun
@@ -36,7 +37,8 @@ TYPECHECKED_ENGINES = ('psql', 'duckdb', 'clickhouse')
 REQUIRED_KINDS = (
     ['integration', 'typechecked', 'gen', 'rec:vertical', 'rec:flat',
      'rec:iterative_auto', 'rec:iterative_forced', 'rec:diamond', 'functor',
-     'imports', 'incantation', 'toomuch', 'stopfile', 'iteration'] +
+     'imports', 'incantation', 'toomuch', 'stopfile', 'iteration', 'victim',
+     'fails:parse', 'fails:compile', 'fails:type', 'fails:exec'] +
     ['engine:' + e for e in ENGINES])
 
 
@@ -161,7 +163,7 @@ REC_SHAPES = [
     ('evenodd', 24, False, 'databricks', 'rec:iterative_auto'),
 ]
 # quick tier: one program per (style, engine family)
-REC_QUICK = [0, 2, 3, 4, 6, 7, 9, 10, 11, 13, 14]
+REC_QUICK = [0, 2, 4, 6, 9, 10, 11, 13, 14]
 
 
 def RecEntries(rng, n):
@@ -262,6 +264,55 @@ TOOMUCH_PROGRAMS = [
      'Out(total? += 2*ArrayLength(x)) distinct :- T(x);\n', ['Out']),
 ]
 
+# the same, with the forms a reviewer's change was sensitive to: an operator of
+# `* / % ^` tight against an opening parenthesis, and `<=>` (a parse error in
+# the standard grammar - being rejected is part of the function)
+TOOMUCH_PROGRAMS += [
+    ('tm/paren', '@Engine("sqlite");\n'
+     'T(x: 1); T(x: 4);\n'
+     'Out(y) :- T(x:), y == 2*(x+1);\n', ['Out']),
+    ('tm/paren_psql', '@Engine("psql");\n'
+     'T(x: 1); T(x: 4);\n'
+     'Out(y, z) :- T(x:), y == 7%(x+1), z == 3/(x+1);\n', ['Out']),
+    ('tm/equiv', '@Engine("sqlite");\n'
+     'T(x: 1); T(x: 4);\n'
+     'Out(x) :- T(x:), (x > 0 <=> x > 1);\n', ['Out']),
+]
+
+# Programs whose compilation FAILS (stage -> expected exception class); the
+# first two carry the incantation, so the parser flag is set before the failure.
+FAILING_PROGRAMS = [
+    ('fail/inc_syntax', 'parse', 'ParsingException', '@Engine("sqlite");\n'
+     '# ' + INCANTATION + '\n'
+     'T(1);\nOut(x) :- T(x) T(y);\n', ['Out'], False),
+    ('fail/inc_import', 'parse', 'ParsingException', '@Engine("sqlite");\n'
+     '# ' + INCANTATION + '\n'
+     'import nowhere.nothing.Missing;\nOut(x) :- Missing(x);\n', ['Out'],
+     False),
+    ('fail/syntax', 'parse', 'ParsingException', '@Engine("psql");\n'
+     'T(1);\nOut(x) :- T(x), (x > ;\n', ['Out'], False),
+    ('fail/compile_sqlite', 'compile', 'RuleCompileException',
+     '@Engine("sqlite");\n'
+     'T(x: 7, y: 3, l: [1, 2]);\n'
+     'Out(a: x % y, b: (x in l), c: Greatest(x, y), d: z) :- T(x:, y:, l:);\n',
+     ['Out'], False),
+    ('fail/compile_duckdb', 'compile', 'RuleCompileException',
+     '@Engine("duckdb");\n'
+     'T(x: 7, l: [1, 2]);\n'
+     'Out(a: Size(l), b: Element(l, 0), c: Size()) :- T(x:, l:);\n',
+     ['Out'], False),
+    ('fail/functor', 'compile', 'FunctorError', '@Engine("sqlite");\n'
+     'T(1);\nF(x) :- T(x);\nOut := F(Nothing: T);\n', ['Out'], False),
+    ('fail/type_psql', 'type', 'TypeErrorCaughtException', '@Engine("psql");\n'
+     'T(x: 7, y: 3, l: [1, 2]);\n'
+     'Out(a: x % y, b: (x in l), c: x + "a") :- T(x:, y:, l:);\n', ['Out'],
+     False),
+    ('fail/exec_sqlite', 'exec', 'OperationalError', '@Engine("sqlite");\n'
+     'T(x: 7, y: 3, l: [1, 2]);\n'
+     'Out(a: x % y, b: (x in l), c: Greatest(x, y), d: w) :- T(x:, y:, l:), '
+     'NoSuchTable(w);\n', ['Out'], True),
+]
+
 INCANTATION_PROGRAMS = [
     ('inc/comment', '@Engine("sqlite");\n'
      '# ' + INCANTATION + '\n'
@@ -326,10 +377,24 @@ def HandEntries():
     out.append({'id': id_, 'kind': ['toomuch', 'engine:' + EngineOf(text)],
                 'text': text, 'preds': preds, 'user_flags': {},
                 'import_root': None})
+    if id_ == 'tm/equiv':
+      # `<=>` is a syntax error of the standard grammar: F[prog] is that
+      # diagnostic (and valid SQL only when the program itself has the
+      # incantation)
+      out[-1].update(fail_stage='parse', fail_class='ParsingException')
   for id_, text, preds in INCANTATION_PROGRAMS:
     out.append({'id': id_, 'kind': ['incantation', 'engine:' + EngineOf(text)],
                 'text': text, 'preds': preds, 'user_flags': {},
                 'import_root': None})
+  for id_, stage, cls, text, preds, run in FAILING_PROGRAMS:
+    kinds = ['failing', 'fails:' + stage, 'engine:' + EngineOf(text)]
+    if INCANTATION in text:
+      kinds.append('incantation')
+    if EngineOf(text) in TYPECHECKED_ENGINES:
+      kinds.append('typechecked')
+    out.append({'id': id_, 'kind': kinds, 'text': text, 'preds': preds,
+                'user_flags': {}, 'import_root': '$MODULES', 'run': run,
+                'fail_stage': stage, 'fail_class': cls})
   for id_, text, preds in STOP_PROGRAMS:
     out.append({'id': id_, 'kind': ['stopfile-candidate', 'rec:diamond',
                                     'typechecked', 'engine:duckdb'],
@@ -340,7 +405,7 @@ def HandEntries():
 
 # ---- assembly ----------------------------------------------------------------------
 
-QUICK = dict(integration=18, gen=3, rec=len(REC_QUICK), fun=2)
+QUICK = dict(integration=12, gen=2, rec=len(REC_QUICK), fun=2)
 # compile for > 3 CPU-s each (measured); the quick tier leaves them out
 HEAVY = ('psql_graph_coloring_test', 'psql_flow_test',
          'sqlite_shortest_path_test', 'clingo_pipeline_test', 'psql_game_test')
@@ -361,7 +426,7 @@ def PickIntegration(entries, n, rng):
   Take(lambda e: 'incantation' in e['kind'], 2)
   for eng in ENGINES:
     Take(lambda e, eng=eng: 'engine:' + eng in e['kind'],
-         2 if eng in ('sqlite', 'bigquery', 'psql', 'duckdb') else 1)
+         2 if eng in ('sqlite', 'psql', 'duckdb') else 1)
   for k in ('imports', 'functor', 'recursive', 'typechecked'):
     if not any(k in e['kind'] for e in chosen.values()):
       Take(lambda e, k=k: k in e['kind'], 1)
@@ -370,12 +435,31 @@ def PickIntegration(entries, n, rng):
   return [e for e in entries if e['id'] in chosen]
 
 
+def VictimEntries():
+  """One program per engine calling every built-in whose translation differs
+  between dialects (derived from the tables of the tree under test)."""
+  d = c13victims.Load(common.REPO, common.BUILD, common.PY)
+  out = []
+  for engine in sorted(d['victims']):
+    v = d['victims'][engine]
+    kinds = ['victim', 'engine:' + engine]
+    if engine in TYPECHECKED_ENGINES:
+      kinds.append('typechecked')
+    out.append({'id': 'victim/' + engine, 'kind': kinds, 'text': v['text'],
+                'preds': ['V'], 'user_flags': {}, 'import_root': None,
+                'victim_uses': v['uses'],
+                'victim_left_standard': v['left_standard']})
+  return out, d
+
+
 def Build(tier):
   sizes = THOROUGH if tier == 'thorough' else QUICK
   rng = common.Rng('c13-corpus')
   integ = IntegrationEntries()
   entries = PickIntegration(integ, sizes['integration'], rng)
   entries += HandEntries()
+  victims, derivation = VictimEntries()
+  entries += victims
   entries += RecEntries(rng, sizes['rec'])
   entries += FunEntries(rng, sizes['fun'])
   entries += GenEntries(rng, sizes['gen'])
@@ -383,4 +467,15 @@ def Build(tier):
     e['idx'] = k + 1
     e['import_root_sym'] = e['import_root']
     e['import_root'] = Resolve(e['import_root'])
-  return entries, {'integration_available': len(integ)}
+    e['engine'] = [k[7:] for k in e['kind'] if k.startswith('engine:')][0]
+    e.setdefault('fail_stage', 'ok')
+    e.setdefault('run', False)
+  return entries, {
+      'integration_available': len(integ),
+      'differing_builtins': (derivation['differing_functions'] +
+                             derivation['differing_operators']),
+      'victim_uses': {e: len(v['uses'])
+                      for e, v in derivation['victims'].items()},
+      'victim_rejected': {e: v['rejected']
+                          for e, v in derivation['victims'].items()
+                          if v['rejected']}}
